@@ -142,6 +142,11 @@ def run(ctx: core.Ctx) -> int:
                     r["inds"]["gappy"] = round(rng.uniform(-5, 5), 2)
                 else:
                     r["inds"]["gappy"] = None
+        # now and then the Hexital has a timeframe of its own, and a member names that very timeframe
+        # explicitly (it then lives on a second manager with the same label)
+        own_tf = rng.choice(["T2", "T5"]) if rng.random() < 0.25 else None
+        if own_tf:
+            hcfg = {**hcfg, "tf": own_tf}
         specs, tfs = [], []
         for j in range(rng.randint(1, 3)):
             # indicators that legitimately read 0 / False: Counter, OBV on zero volume, STDEVTHRES, TR on flat candles
@@ -150,7 +155,7 @@ def run(ctx: core.Ctx) -> int:
             # user-chosen suffixes may contain a dot (the library keeps dots out of the final name)
             s["name_suffix"] = rng.choice([f"m{j}", f"m{j}", f"m{j}", f"{j}.5", f"v{j}.0"])
             specs.append(s)
-            tfs.append(rng.choice([None, None, "T5", "T15"]))
+            tfs.append(rng.choice([None, None, "T5", "T15"]) if not own_tf else rng.choice([None, None, own_tf, own_tf, "T15"]))
         cases.append({"specs": specs, "rows": rows, "tfs": tfs, "probe": [rng.randrange(1000) for _ in range(3)],
                       "after": rng.choice([None, None, "calc_index_mid"]), "hcfg": hcfg})
     ac = acccorr.AccCorr(ctx, "C20")
